@@ -63,6 +63,7 @@ class ConcatenatedData(Concatenated, Data):
             parental_attr = self.concatenator.get_concatenated_attributes(
                 self.parent.uid
             )
+            self._check_name_is_free(parental_attr, new_name)
 
         if parental_attr is None or parental_attr.get(
             f"Property:{old_name}"
@@ -80,6 +81,20 @@ class ConcatenatedData(Concatenated, Data):
 
         if values is not None:
             self.concatenator.update_array_attribute(self, new_name)
+
+    def _check_name_is_free(self, parental_attr: dict, name: str):
+        """
+        The data of a drillhole are filed under their names: refuse a name that
+        another data of the same drillhole already uses.
+        """
+        if parental_attr.get(f"Property:{name}") not in (
+            None,
+            as_str_if_uuid(self.uid),
+        ):
+            raise ValueError(
+                f"Data with name '{name}' already present on the drillhole. "
+                "Consider changing the values or renaming."
+            )
 
     @property
     def property_group(self) -> ConcatenatedPropertyGroup | None:
@@ -106,6 +121,11 @@ class ConcatenatedData(Concatenated, Data):
             raise ValueError(
                 "The 'parent' of a concatenated data must have an 'add_children' method."
             )
+        if hasattr(parent, "concatenator"):
+            self._check_name_is_free(
+                parent.concatenator.get_concatenated_attributes(parent.uid), self.name
+            )
+
         parent.add_children([self])
         self._parent: ConcatenatedObject = parent
 
